@@ -2,6 +2,7 @@
 from __future__ import annotations
 
 from kfv.core import Ctx
+from kfv.rules import role_rules as RO
 from kfv.rules import dist_rules as D
 from kfv.rules import tensor_rules as TR
 from kfv.rules import bkt_rules as B
@@ -36,3 +37,4 @@ def run(ctx: Ctx) -> None:
     ctx.do(TR.rule_tt_comm)
     ctx.do(D.rule_dom_valid)
     ctx.do(D.rule_rank_space)
+    ctx.do(RO.rule_roles)
